@@ -167,10 +167,38 @@ func genServerSeq(r *rand.Rand, steps int, variant int) []string {
 	}
 	plen := []int{24, 24, 28, 20, 16, 30}[r.Intn(6)]
 	g.lease = []int{60, 600, 3600, 86400}[r.Intn(4)]
-	dns := []string{"-", "08080808", "08080808,08080404", "01010101,09090909"}[r.Intn(4)]
-	g.do(fmt.Sprintf("addpool 1 0a000100/%d 0a000101 %s %d %d %d", plen, dns, g.lease, r.Intn(3)*100, 1+r.Intn(3)))
-	if r.Intn(4) == 0 {
-		g.do(fmt.Sprintf("addpool 2 0a000200/24 0a000201 08080808 %d 0 2", g.lease))
+	dns := []string{"-", "08080808", "08080808,08080404", "01010101,09090909", "08080808,08080404,01010101"}[r.Intn(5)]
+	pool1 := fmt.Sprintf("addpool 1 0a000100/%d 0a000101 %s %d %d %d", plen, dns, g.lease, r.Intn(3)*100, 1+r.Intn(3))
+	pool2 := fmt.Sprintf("addpool 2 0a000200/24 0a000201 08080808 %d 0 2", g.lease)
+	// which pool ClassifyClient hands out: the first one added, the one SetDefaultPool names, or — after the default
+	// pool was removed — the only one left (with more than one left the Go choice follows map iteration order)
+	switch variant % 8 {
+	case 0, 1, 2:
+		g.do(pool1)
+	case 3:
+		g.do(pool1)
+		g.do(pool2)
+	case 4:
+		g.do(pool2)
+		g.do(pool1)
+	case 5:
+		g.do(pool2)
+		g.do(pool1)
+		g.do("setdefault 1")
+		g.do("setdefault 7")
+	case 6:
+		g.do(pool1)
+		g.do(pool2)
+		g.do("rmpool 1")
+		g.do("rmpool 9")
+	case 7:
+		g.do(pool2)
+		g.do(pool1)
+		g.do("rmpool 1")
+		g.do(pool1)
+	}
+	if r.Intn(3) == 0 {
+		g.do(fmt.Sprintf("tickms %d", []int{1, 250, 500, 999}[r.Intn(4)]))
 	}
 	var cs []*client
 	for k := 1; k <= 2+r.Intn(3); k++ {
@@ -180,7 +208,12 @@ func genServerSeq(r *rand.Rand, steps int, variant int) []string {
 			c.cid = []byte(fmt.Sprintf("olt1/0/%d", k))
 			c.relay = true
 		case 1:
-			c.cid = []byte(fmt.Sprintf("port-%d-of-a-long-circuit-identifier-%d", k, k)) // > 32 bytes
+			if variant%3 == 0 {
+				// two long circuit-ids that agree in their first 32 bytes: one circuit_id_subscribers key
+				c.cid = []byte(fmt.Sprintf("a-very-long-circuit-identifier-prefix-%d", k))
+			} else {
+				c.cid = []byte(fmt.Sprintf("port-%d-of-a-long-circuit-identifier-%d", k, k)) // > 32 bytes
+			}
 			c.relay = r.Intn(2) == 0
 		case 2:
 			c.relay = r.Intn(3) == 0
@@ -232,6 +265,9 @@ func genServerSeq(r *rand.Rand, steps int, variant int) []string {
 		case x < 16:
 			n := []int{1, 30, g.lease / 2, g.lease - 1, g.lease, g.lease + 1, 2 * g.lease}[r.Intn(7)]
 			g.do(fmt.Sprintf("tick %d", n))
+			if r.Intn(3) == 0 {
+				g.do(fmt.Sprintf("tickms %d", []int{100, 400, 600, 900}[r.Intn(4)]))
+			}
 			g.probe(cs)
 		case x < 17:
 			g.do("cleanup")
